@@ -87,7 +87,9 @@ GWrite == /\ "write" \in Groups /\ LeafMutable /\ nmut < MutDepth
 
 (* ---- C03 ---- *)
 GView == /\ "view" \in Groups /\ nmut = 0
-         /\ \/ \E sc \in Ixs(WC), ec \in Ixs(WC), sr \in Ixs(WR), er \in Ixs(WR) :
+         /\ \/ Do("debug", NoArg, FALSE)
+            \/ LeafMutable /\ Do("as_view", NoArg, FALSE)
+            \/ \E sc \in Ixs(WC), ec \in Ixs(WC), sr \in Ixs(WR), er \in Ixs(WR) :
                   \/ Do("view", [s |-> <<sc, sr>>, e |-> <<ec, er>>], FALSE)
                   \/ LeafMutable /\ Do("view_mut", [s |-> <<sc, sr>>, e |-> <<ec, er>>, v |-> Fresh], TRUE)
             \/ \E b \in BigArgs, pos \in 1..4, lo \in {0, 1}, op \in {"view", "view_mut"} :
